@@ -1,0 +1,15 @@
+//go:build verif
+
+package parse
+
+import "sync/atomic"
+
+// Verification hook (build tag "verif"): counts scanner and parser steps so a
+// test harness can check that parsing work is proportional to the input.
+
+var verifSteps int64
+
+func verifStep() { atomic.AddInt64(&verifSteps, 1) }
+
+// VerifSteps returns the number of scanner/parser steps taken so far.
+func VerifSteps() int64 { return atomic.LoadInt64(&verifSteps) }
